@@ -1,10 +1,10 @@
 /-
-  Loop invariants of the RAIRE search (DESIGN.md Appendix F, S1-S3): node well-formedness, the
-  strengthened Cover invariant `SC`, and the frontier-local invariants `FInv`, shown to be preserved by
-  `insertNode`, `replaceDescendents`, `manageNode`, `pruneChecks`, `performDive`, `expandLoop`, and
-  `mainLoop`.  Core Lean only.
+  Loop invariants of the RAIRE search (DESIGN.md Appendix F, S2-S3, O1-O3): the strengthened Cover
+  invariant `SC` and the frontier-local invariants `FInv`, shown to be preserved by `insertNode`,
+  `replaceDescendents`, `manageNode`, `pruneChecks`, `performDive`, `expandLoop`, and `mainLoop`; the
+  "audit not possible" exits produce an alternative order no true assertion contradicts (`BadLeaf`).
 -/
-import Shangrla.Lemmas.RaireStore
+import Shangrla.Lemmas.RaireChain
 
 namespace Shangrla.Raire
 open Spec
@@ -15,75 +15,6 @@ set_option linter.unusedVariables false
 section Loop
 variable {α : Type} [DecidableEq α] {D : Type} [DiffOrd D] [DiffOrd.Lawful D]
 variable (asn : Nat → Nat → Nat → Nat → D) (C : Contest α) (cvrs : List (Option (Ballot α))) (winner : α)
-
-/-- `find_best_audit` with the contest's ballots and NEB table -/
-def fbaOf (tail : List α) : Option (Assertion α D) × Diff D :=
-  findBestAudit asn C (cvrs.filterMap id) (nebTable asn C cvrs) tail
-
-/-- (S1) what is true of every node ever created -/
-structure NodeOK (s : Store α D) (id : Nat) : Prop where
-  nodup : (s.get id).tail.Nodup
-  sub : ∀ y ∈ (s.get id).tail, y ∈ C.candidates
-  len : 2 ≤ (s.get id).tail.length
-  alt : ∃ pre c, (s.get id).tail = pre ++ [c] ∧ c ≠ winner
-  best : (s.get id).best = (fbaOf asn C cvrs (s.get id).tail).1
-  est : (s.get id).estimate = (fbaOf asn C cvrs (s.get id).tail).2
-  expLen : (s.get id).expandable = true → (s.get id).tail.length < C.candidates.length
-  anc : ∀ j, (s.get id).bestAnc = some j → j < id ∧ ∃ pre, pre ≠ [] ∧ (s.get id).tail = pre ++ (s.get j).tail
-  ancMin : ∀ j, (s.get id).bestAnc = some j → ∀ t, t <:+ (s.get id).tail → 2 ≤ t.length →
-    t.length < (s.get id).tail.length → Diff.le (s.get j).estimate (fbaOf asn C cvrs t).2 = true
-  ancNone : (s.get id).bestAnc = none → (s.get id).tail.length = 2
-
-def StoreOK (s : Store α D) : Prop := ∀ id, id < s.size → NodeOK asn C cvrs winner s id
-
-/-- the immutable part of a node is unchanged, `expandable` can only be switched off -/
-def NodeExt (n n' : Node α D) : Prop :=
-  n'.tail = n.tail ∧ n'.best = n.best ∧ n'.estimate = n.estimate ∧ n'.bestAnc = n.bestAnc ∧
-  n'.diveNode = n.diveNode ∧ (n'.expandable = true → n.expandable = true)
-
-theorem NodeExt.refl (n : Node α D) : NodeExt n n := ⟨rfl, rfl, rfl, rfl, rfl, id⟩
-
-def Ext (s s' : Store α D) : Prop := s.size ≤ s'.size ∧ ∀ k, k < s.size → NodeExt (s.get k) (s'.get k)
-
-theorem Ext.refl (s : Store α D) : Ext s s := ⟨Nat.le_refl _, fun k _ => NodeExt.refl _⟩
-
-theorem Ext.trans {s s' s'' : Store α D} (h1 : Ext s s') (h2 : Ext s' s'') : Ext s s'' := by
-  refine ⟨Nat.le_trans h1.1 h2.1, fun k hk => ?_⟩
-  obtain ⟨a1, a2, a3, a4, a5, a6⟩ := h1.2 k hk
-  obtain ⟨b1, b2, b3, b4, b5, b6⟩ := h2.2 k (Nat.lt_of_lt_of_le hk h1.1)
-  exact ⟨b1.trans a1, b2.trans a2, b3.trans a3, b4.trans a4, b5.trans a5, fun h => a6 (b6 h)⟩
-
-theorem NodeOK.ext {s s' : Store α D} {id : Nat} (h : NodeOK asn C cvrs winner s id)
-    (he : ∀ k, k ≤ id → NodeExt (s.get k) (s'.get k)) : NodeOK asn C cvrs winner s' id := by
-  obtain ⟨e1, e2, e3, e4, e5, e6⟩ := he id (Nat.le_refl _)
-  refine ⟨by rw [e1]; exact h.nodup, by rw [e1]; exact h.sub, by rw [e1]; exact h.len,
-    by rw [e1]; exact h.alt, by rw [e1, e2]; exact h.best, by rw [e1, e3]; exact h.est,
-    fun hx => by rw [e1]; exact h.expLen (e6 hx), ?_, ?_, by rw [e1, e4]; exact h.ancNone⟩
-  · intro j hj
-    rw [e4] at hj
-    obtain ⟨h1, h2⟩ := h.anc j hj
-    refine ⟨h1, ?_⟩
-    rw [e1, (he j (Nat.le_of_lt h1)).1]; exact h2
-  · intro j hj
-    rw [e4] at hj
-    obtain ⟨h1, _⟩ := h.anc j hj
-    rw [e1, (he j (Nat.le_of_lt h1)).2.2.1]
-    exact h.ancMin j hj
-
-theorem StoreOK.ext {s s' : Store α D} (h : StoreOK asn C cvrs winner s) (he : Ext s s') :
-    ∀ id, id < s.size → NodeOK asn C cvrs winner s' id :=
-  fun id hid => (h id hid).ext asn C cvrs winner (fun k hk => he.2 k (Nat.lt_of_le_of_lt hk hid))
-
-theorem ext_push (s : Store α D) (n : Node α D) : Ext s (s.push n) := by
-  refine ⟨by rw [Array.size_push]; omega, fun k hk => ?_⟩
-  rw [Store.get_push_lt s n hk]; exact NodeExt.refl _
-
-theorem ext_set (s : Store α D) (i : Nat) (n : Node α D) (hn : NodeExt (s.get i) n) :
-    Ext s (s.setIfInBounds i n) := by
-  refine ⟨by rw [Array.size_setIfInBounds]; omega, fun k hk => ?_⟩
-  by_cases h : i = k
-  · subst h; rw [Store.get_set_eq s n hk]; exact hn
-  · rw [Store.get_set_ne s n h]; exact NodeExt.refl _
 
 /-! ### the strengthened Cover invariant -/
 
@@ -124,12 +55,32 @@ structure FInv (st : St α D) : Prop where
   infPre : st.fr.Pairwise fun a b =>
     (st.store.get b).estimate = Diff.inf → (st.store.get a).estimate = Diff.inf
   lbFin : LBfin st.lb
+  /-- (O1) the lower bound is below the largest difficulty of every sufficient set of true assertions -/
+  lbOpt : ∀ x, st.lb = some x → LeOPT asn C cvrs winner x
+  /-- (O2) so is the estimate of every frontier node that will not be expanded -/
+  nonexpOpt : ∀ id ∈ st.fr, (st.store.get id).expandable = false →
+    LeOPT asn C cvrs winner (st.store.get id).estimate
+  /-- (O3) an expandable node is cheaper than everything before it, unless it is below the lower bound -/
+  sorted : st.fr.Pairwise fun a b => (st.store.get b).expandable = true →
+    Diff.le (st.store.get b).estimate (st.store.get a).estimate = true ∨
+    leLB (st.store.get b).estimate st.lb = true
 
-theorem FInv.congr {st st' : St α D} (h : FInv st) (hfr : st'.fr = st.fr) (hsz : st.store.size ≤ st'.store.size)
+variable {asn C cvrs winner}
+
+theorem FInv.leOPT_of_leLB {st : St α D} (h : FInv asn C cvrs winner st) {e : Diff D}
+    (he : leLB e st.lb = true) : LeOPT asn C cvrs winner e := by
+  cases hl : st.lb with
+  | none => rw [hl] at he; cases he
+  | some l =>
+    rw [hl] at he
+    exact (h.lbOpt l hl).mono asn C cvrs winner he
+
+theorem FInv.congr {st st' : St α D} (h : FInv asn C cvrs winner st) (hfr : st'.fr = st.fr)
+    (hsz : st.store.size ≤ st'.store.size)
     (hn : ∀ id ∈ st.fr, (st'.store.get id).estimate = (st.store.get id).estimate ∧
       (st'.store.get id).expandable = (st.store.get id).expandable)
-    (hlb : LBfin st'.lb) : FInv st' := by
-  refine ⟨?_, ?_, ?_, hlb⟩
+    (hlb : st'.lb = st.lb) : FInv asn C cvrs winner st' := by
+  refine ⟨?_, ?_, ?_, by rw [hlb]; exact h.lbFin, by rw [hlb]; exact h.lbOpt, ?_, ?_⟩
   · intro id hid; rw [hfr] at hid; exact Nat.lt_of_lt_of_le (h.inRange id hid) hsz
   · intro id hid; rw [hfr] at hid
     rw [(hn id hid).1, (hn id hid).2]; exact h.infExp id hid
@@ -137,6 +88,12 @@ theorem FInv.congr {st st' : St α D} (h : FInv st) (hfr : st'.fr = st.fr) (hsz 
     refine h.infPre.imp_of_mem ?_
     intro a b ha hb hab
     rw [(hn a ha).1, (hn b hb).1]; exact hab
+  · intro id hid; rw [hfr] at hid
+    rw [(hn id hid).1, (hn id hid).2]; exact h.nonexpOpt id hid
+  · rw [hfr, hlb]
+    refine h.sorted.imp_of_mem ?_
+    intro a b ha hb hab
+    rw [(hn a ha).1, (hn b hb).1, (hn b hb).2]; exact hab
 
 theorem pairwise_insert {R : Nat → Nat → Prop} {pre post : List Nat} {id : Nat}
     (h : (pre ++ post).Pairwise R) (h1 : ∀ a ∈ pre, R a id) (h2 : ∀ b ∈ post, R id b) :
@@ -150,12 +107,14 @@ theorem pairwise_insert {R : Nat → Nat → Prop} {pre post : List Nat} {id : N
   · exact h1 a ha
   · exact p3 a ha b hb
 
-/-- `insert_node` preserves the frontier invariants (a non-expandable node must have a finite estimate) -/
-theorem FInv.insertNode {st : St α D} (h : FInv st) (id : Nat) (hid : id < st.store.size)
-    (hne : (st.store.get id).expandable = false → (st.store.get id).estimate ≠ Diff.inf) :
-    FInv { st with fr := Raire.insertNode st.store st.fr id } := by
+/-- `insert_node` preserves the frontier invariants (a non-expandable node must have a finite estimate
+that is below every sufficient set) -/
+theorem FInv.insertNode {st : St α D} (h : FInv asn C cvrs winner st) (id : Nat) (hid : id < st.store.size)
+    (hne : (st.store.get id).expandable = false →
+      (st.store.get id).estimate ≠ Diff.inf ∧ LeOPT asn C cvrs winner (st.store.get id).estimate) :
+    FInv asn C cvrs winner { st with fr := Raire.insertNode st.store st.fr id } := by
   obtain ⟨pre, post, h1, h2, c1, c2, c3⟩ := insertNode_split st.store st.fr id
-  refine ⟨?_, ?_, ?_, h.lbFin⟩
+  refine ⟨?_, ?_, ?_, h.lbFin, h.lbOpt, ?_, ?_⟩
   · intro x hx
     rcases (mem_insertNode _ _ _ _).1 hx with rfl | hx
     · exact hid
@@ -164,7 +123,7 @@ theorem FInv.insertNode {st : St α D} (h : FInv st) (id : Nat) (hid : id < st.s
     rcases (mem_insertNode _ _ _ _).1 hx with rfl | hx
     · cases he : (st.store.get x).expandable with
       | true => rfl
-      | false => exact absurd hinf (hne he)
+      | false => exact absurd hinf (hne he).1
     · exact h.infExp x hx hinf
   · show (Raire.insertNode st.store st.fr id).Pairwise _
     rw [h2]
@@ -173,7 +132,7 @@ theorem FInv.insertNode {st : St α D} (h : FInv st) (id : Nat) (hid : id < st.s
     apply pairwise_insert hp
     · intro a _ hinf
       cases he : (st.store.get id).expandable with
-      | false => exact absurd hinf (hne he)
+      | false => exact absurd hinf (hne he).1
       | true =>
         have := c2 he hinf
         subst this
@@ -198,19 +157,64 @@ theorem FInv.insertNode {st : St α D} (h : FInv st) (id : Nat) (hid : id < st.s
           · exact hyfin hinf
           · have hpp := (List.pairwise_append.1 hp).2.1
             exact hyfin ((List.pairwise_cons.1 hpp).1 b hb hinf)
+  · intro x hx hexp
+    rcases (mem_insertNode _ _ _ _).1 hx with rfl | hx
+    · exact (hne hexp).2
+    · exact h.nonexpOpt x hx hexp
+  · show (Raire.insertNode st.store st.fr id).Pairwise _
+    rw [h2]
+    have hp := h.sorted
+    rw [h1] at hp
+    apply pairwise_insert hp
+    · intro a ha hexp
+      by_cases hinf : (st.store.get id).estimate = Diff.inf
+      · have := c2 hexp hinf
+        subst this; cases ha
+      · left
+        have := (c3 hexp hinf).1 a ha
+        rcases Diff.le_total (st.store.get a).estimate (st.store.get id).estimate with h' | h'
+        · rw [h'] at this; cases this
+        · exact h'
+    · intro b hb hexpb
+      cases he : (st.store.get id).expandable with
+      | false => rw [c1 he] at hb; cases hb
+      | true =>
+        by_cases hinf : (st.store.get id).estimate = Diff.inf
+        · left; rw [hinf]; exact Diff.le_inf _
+        · obtain ⟨_, c4⟩ := c3 he hinf
+          cases post with
+          | nil => cases hb
+          | cons y post' =>
+            have hy := c4 y rfl
+            simp only [List.mem_cons] at hb
+            rcases hb with rfl | hb
+            · exact Or.inl hy
+            · have hpp := (List.pairwise_append.1 hp).2.1
+              rcases (List.pairwise_cons.1 hpp).1 b hb hexpb with h' | h'
+              · exact Or.inl (Diff.le_trans h' hy)
+              · exact Or.inr h'
 
-theorem FInv.filter {st : St α D} (h : FInv st) (p : Nat → Bool) : FInv { st with fr := st.fr.filter p } :=
+theorem FInv.filter {st : St α D} (h : FInv asn C cvrs winner st) (p : Nat → Bool) :
+    FInv asn C cvrs winner { st with fr := st.fr.filter p } :=
   ⟨fun id hid => h.inRange id (List.mem_filter.1 hid).1,
    fun id hid => h.infExp id (List.mem_filter.1 hid).1,
-   h.infPre.filter p, h.lbFin⟩
+   h.infPre.filter p, h.lbFin, h.lbOpt,
+   fun id hid => h.nonexpOpt id (List.mem_filter.1 hid).1,
+   h.sorted.filter p⟩
 
-theorem FInv.replaceDescendents {st : St α D} (h : FInv st) (id : Nat) (hid : id < st.store.size)
-    (hne : (st.store.get id).estimate ≠ Diff.inf) :
-    FInv { st with fr := Raire.replaceDescendents st.store st.fr id } :=
-  (h.filter _).insertNode id hid (fun _ => hne)
+theorem FInv.replaceDescendents {st : St α D} (h : FInv asn C cvrs winner st) (id : Nat) (hid : id < st.store.size)
+    (hne : (st.store.get id).estimate ≠ Diff.inf) (hopt : LeOPT asn C cvrs winner (st.store.get id).estimate) :
+    FInv asn C cvrs winner { st with fr := Raire.replaceDescendents st.store st.fr id } :=
+  (h.filter _).insertNode id hid (fun _ => ⟨hne, hopt⟩)
 
-theorem FInv.setLb {st : St α D} (h : FInv st) (lb : LB D) (hlb : LBfin lb) : FInv { st with lb := lb } :=
-  ⟨h.inRange, h.infExp, h.infPre, hlb⟩
+/-- raising the lower bound to a value that is still below every sufficient set -/
+theorem FInv.setLb {st : St α D} (h : FInv asn C cvrs winner st) (lb : LB D) (hle : LB.le st.lb lb)
+    (hlb : LBfin lb) (hopt : ∀ x, lb = some x → LeOPT asn C cvrs winner x) :
+    FInv asn C cvrs winner { st with lb := lb } :=
+  ⟨h.inRange, h.infExp, h.infPre, hlb, hopt, h.nonexpOpt,
+   h.sorted.imp (fun hab hexp => (hab hexp).imp id (leLB_mono hle))⟩
+
+variable (asn C cvrs winner)
 
 /-! ### manage_node -/
 
@@ -236,15 +240,43 @@ theorem LBfin_maxLB {lb : LB D} {x : Diff D} (h : LBfin lb) (hx : x ≠ Diff.inf
   · rw [h1]; intro he; cases he; exact hx rfl
   · rw [h1]; exact h
 
+theorem LBopt_maxLB {lb : LB D} {x : Diff D} (h : ∀ y, lb = some y → LeOPT asn C cvrs winner y)
+    (hx : LeOPT asn C cvrs winner x) : ∀ y, maxLB lb x = some y → LeOPT asn C cvrs winner y := by
+  intro y hy
+  rcases maxLB_cases lb x with h1 | h1
+  · rw [h1] at hy; cases hy; exact hx
+  · rw [h1] at hy; exact h y hy
+
+/-- `manage_node` reporting "audit not possible": the new leaf is an alternative order that no true
+assertion contradicts -/
+theorem manageNode_anp (hC : C.candidates.Nodup) (st : St α D) (id : Nat) (hid : id < st.store.size)
+    (hok : StoreOK asn C cvrs winner st.store)
+    (hanc : (st.store.get id).expandable = false → ∃ j, (st.store.get id).bestAnc = some j)
+    (hleaf : (st.store.get id).expandable = false → (st.store.get id).tail.length = C.candidates.length)
+    (h : (manageNode st id).1 = true) : BadLeaf asn C cvrs winner := by
+  cases he : (st.store.get id).expandable with
+  | true => rw [manageNode_expandable st id he] at h; cases h
+  | false =>
+    obtain ⟨anc, ha⟩ := hanc he
+    rw [manageNode_leaf st id anc he ha] at h
+    by_cases c1 : ((st.store.get id).estimate.isInf && (st.store.get anc).estimate.isInf) = true
+    · simp only [Bool.and_eq_true, Diff.isInf_iff] at c1
+      refine leaf_bad asn C cvrs winner hC (hok id hid) (hleaf he) c1.1 ?_
+      intro j hj
+      rw [ha] at hj; cases hj; exact c1.2
+    · rw [if_neg c1] at h
+      split at h <;> cases h
+
 /-- what `manage_node` does to the invariants when it does not report "audit not possible":
 the store is untouched, nothing that was covered gets uncovered, and every order through the new
 node's tail is covered afterwards -/
-theorem manageNode_spec (st : St α D) (id : Nat) (hid : id < st.store.size)
-    (hok : StoreOK asn C cvrs winner st.store) (hF : FInv st)
+theorem manageNode_spec (hC : C.candidates.Nodup) (st : St α D) (id : Nat) (hid : id < st.store.size)
+    (hok : StoreOK asn C cvrs winner st.store) (hF : FInv asn C cvrs winner st)
     (hexp0 : (st.store.get id).explored = [])
     (hanc : (st.store.get id).expandable = false → ∃ j, (st.store.get id).bestAnc = some j)
+    (hleaf : (st.store.get id).expandable = false → (st.store.get id).tail.length = C.candidates.length)
     (h : (manageNode st id).1 = false) :
-    (manageNode st id).2.2.store = st.store ∧ FInv (manageNode st id).2.2 ∧
+    (manageNode st id).2.2.store = st.store ∧ FInv asn C cvrs winner (manageNode st id).2.2 ∧
     LB.le st.lb (manageNode st id).2.2.lb ∧
     (∀ π, SC st π → SC (manageNode st id).2.2 π) ∧
     (∀ π, (st.store.get id).tail <:+ π → SC (manageNode st id).2.2 π) ∧
@@ -261,12 +293,14 @@ theorem manageNode_spec (st : St α D) (id : Nat) (hid : id < st.store.size)
     obtain ⟨anc, ha⟩ := hanc he
     obtain ⟨hlt, pre, hpre, htail⟩ := (hok id hid).anc anc ha
     have hancsz : anc < st.store.size := Nat.lt_trans hlt hid
+    have hopt := leaf_leOPT asn C cvrs winner hC (hok id hid) (hleaf he) ha
     rw [manageNode_leaf st id anc he ha] at h ⊢
     by_cases c1 : ((st.store.get id).estimate.isInf && (st.store.get anc).estimate.isInf) = true
     · rw [if_pos c1] at h; cases h
     · rw [if_neg c1] at h ⊢
       by_cases c2 : Diff.le (st.store.get anc).estimate (st.store.get id).estimate = true
       · rw [if_pos c2]
+        rw [if_pos c2] at hopt
         have hafin : (st.store.get anc).estimate ≠ Diff.inf := by
           intro hi
           rw [hi, Diff.inf_le_iff] at c2
@@ -275,7 +309,8 @@ theorem manageNode_spec (st : St α D) (id : Nat) (hid : id < st.store.size)
         have hle := le_maxLB_left st.lb (st.store.get anc).estimate
         have hsuf : (st.store.get anc).tail <:+ (st.store.get id).tail := ⟨pre, htail.symm⟩
         refine ⟨rfl, ?_, hle, ?_, ?_, by simp⟩
-        · exact (hF.replaceDescendents anc hancsz hafin).setLb _ (LBfin_maxLB hF.lbFin hafin)
+        · exact (hF.replaceDescendents anc hancsz hafin hopt).setLb _ hle (LBfin_maxLB hF.lbFin hafin)
+            (LBopt_maxLB asn C cvrs winner hF.lbOpt hopt)
         · intro π ⟨w, hw, hw1, hw2⟩
           by_cases hd : isDescendentOf (st.store.get w).tail (st.store.get anc).tail = true
           · obtain ⟨q, _, hq⟩ := (isDescendentOf_iff _ _).1 hd
@@ -286,16 +321,17 @@ theorem manageNode_spec (st : St α D) (id : Nat) (hid : id < st.store.size)
           exact ⟨anc, (mem_replaceDescendents _ _ _ _).2 (Or.inl rfl), hsuf.trans hπ,
             Or.inl (le_maxLB_right _ _)⟩
       · rw [if_neg c2]
+        rw [if_neg c2] at hopt
         have hnfin : (st.store.get id).estimate ≠ Diff.inf := by
           intro hi; rw [hi, Diff.le_inf] at c2; exact c2 rfl
         have hle := le_maxLB_left st.lb (st.store.get id).estimate
         refine ⟨rfl, ?_, hle, ?_, ?_, by simp⟩
-        · exact (hF.insertNode id hid (fun _ => hnfin)).setLb _ (LBfin_maxLB hF.lbFin hnfin)
+        · exact (hF.insertNode id hid (fun _ => ⟨hnfin, hopt⟩)).setLb _ hle (LBfin_maxLB hF.lbFin hnfin)
+            (LBopt_maxLB asn C cvrs winner hF.lbOpt hopt)
         · intro π hsc
           exact hsc.mono (fun x hx => ⟨(mem_insertNode _ _ _ _).2 (Or.inr hx), rfl, rfl, rfl⟩) hle
         · intro π hπ
           exact ⟨id, (mem_insertNode _ _ _ _).2 (Or.inl rfl), hπ, Or.inr (by rw [hexp0]; simp)⟩
-
 
 /-! ### creating a child node -/
 
@@ -435,14 +471,14 @@ theorem pruneChecks_cases {st st' : St α D} {te : Nat} (h : pruneChecks st te =
     · cases h
 
 theorem pruneChecks_spec (st st' : St α D) (te : Nat) (hte : te < st.store.size)
-    (hok : StoreOK asn C cvrs winner st.store) (hF : FInv st) (h : pruneChecks st te = some st') :
-    StoreOK asn C cvrs winner st'.store ∧ FInv st' ∧ st'.lb = st.lb ∧
+    (hok : StoreOK asn C cvrs winner st.store) (hF : FInv asn C cvrs winner st) (h : pruneChecks st te = some st') :
+    StoreOK asn C cvrs winner st'.store ∧ FInv asn C cvrs winner st' ∧ st'.lb = st.lb ∧
     (∀ π, SC st π → SC st' π) ∧ (∀ π, (st.store.get te).tail <:+ π → SC st' π) := by
   rcases pruneChecks_cases h with ⟨a, ha, hl, rfl⟩ | ⟨hl, rfl⟩
   · obtain ⟨hlt, pre, hpre, htail⟩ := (hok te hte).anc a ha
     have hasz : a < st.store.size := Nat.lt_trans hlt hte
     have hafin := leLB_fin hF.lbFin hl
-    refine ⟨hok, hF.replaceDescendents a hasz hafin, rfl, ?_, ?_⟩
+    refine ⟨hok, hF.replaceDescendents a hasz hafin (hF.leOPT_of_leLB hl), rfl, ?_, ?_⟩
     · intro π ⟨w, hw, hw1, hw2⟩
       by_cases hd : isDescendentOf (st.store.get w).tail (st.store.get a).tail = true
       · obtain ⟨q, _, hq⟩ := (isDescendentOf_iff _ _).1 hd
@@ -464,8 +500,9 @@ theorem pruneChecks_spec (st st' : St α D) (te : Nat) (hte : te < st.store.size
       by_cases hk : te = k
       · subst hk; rw [Store.get_set_eq _ _ hte]; exact ⟨rfl, rfl, rfl⟩
       · rw [Store.get_set_ne _ _ hk]; exact ⟨rfl, rfl, rfl⟩
-    have hF1 : FInv { st with store := st.store.setIfInBounds te n' } := by
-      refine ⟨fun id hid => by rw [hsz]; exact hF.inRange id hid, ?_, ?_, hF.lbFin⟩
+    have hoptte : LeOPT asn C cvrs winner (st.store.get te).estimate := hF.leOPT_of_leLB hl
+    have hF1 : FInv asn C cvrs winner { st with store := st.store.setIfInBounds te n' } := by
+      refine ⟨fun id hid => by rw [hsz]; exact hF.inRange id hid, ?_, ?_, hF.lbFin, hF.lbOpt, ?_, ?_⟩
       · intro id hid hinf
         by_cases hk : te = id
         · subst hk
@@ -476,12 +513,28 @@ theorem pruneChecks_spec (st st' : St α D) (te : Nat) (hte : te < st.store.size
       · refine hF.infPre.imp ?_
         intro x y hxy
         rw [(hget x).2.1, (hget y).2.1]; exact hxy
+      · intro id hid hexp
+        by_cases hk : te = id
+        · subst hk
+          rw [(hget te).2.1]; exact hoptte
+        · rw [Store.get_set_ne _ _ hk] at hexp ⊢
+          exact hF.nonexpOpt id hid hexp
+      · refine hF.sorted.imp ?_
+        intro x y hxy hexp
+        rw [(hget x).2.1, (hget y).2.1]
+        apply hxy
+        by_cases hk : te = y
+        · subst hk
+          rw [Store.get_set_eq _ _ hte] at hexp
+          cases hexp
+        · rw [Store.get_set_ne _ _ hk] at hexp
+          exact hexp
     have hte' : (Store.get (st.store.setIfInBounds te n') te) = n' := Store.get_set_eq _ _ hte
     refine ⟨?_, ?_, rfl, ?_, ?_⟩
     · intro id hid
       rw [hsz] at hid
       exact hok.ext asn C cvrs winner hE id hid
-    · exact hF1.insertNode te (by rw [hsz]; exact hte) (fun _ => by rw [hte']; exact hfin)
+    · exact hF1.insertNode te (by rw [hsz]; exact hte) (fun _ => by rw [hte']; exact ⟨hfin, hoptte⟩)
     · intro π hsc
       exact hsc.mono (fun x hx => ⟨(mem_insertNode _ _ _ _).2 (Or.inr hx), (hget x).1, (hget x).2.1,
         (hget x).2.2⟩) (LB.le_refl _)
@@ -515,21 +568,31 @@ theorem nextCand_mem (outcome : List α) (c0 : α) (rest : List α) : nextCand o
 /-- the effect of a dive from node `nid` that does not end in "audit not possible" -/
 def DiveOut (st : St α D) (nid : Nat) (sd : St α D) : Prop :=
   ∃ next, next ∈ C.candidates ∧ next ∉ (st.store.get nid).tail ∧
-    StoreOK asn C cvrs winner sd.store ∧ FInv sd ∧ LB.le st.lb sd.lb ∧
+    StoreOK asn C cvrs winner sd.store ∧ FInv asn C cvrs winner sd ∧ LB.le st.lb sd.lb ∧
     (∀ π, SC st π → SC sd π) ∧ (∀ π, (next :: (st.store.get nid).tail) <:+ π → SC sd π) ∧
     st.store.size ≤ sd.store.size ∧
     (∀ k, k < st.store.size → k ≠ nid → sd.store.get k = st.store.get k) ∧
     sd.store.get nid = { st.store.get nid with explored := (st.store.get nid).explored ++ [next] }
 
-theorem performDive_spec : ∀ (fuel nid : Nat) (st sd : St α D),
+theorem LB.isInf_false_of_fin {lb : LB D} (h : LBfin lb) : LB.isInf lb = false := by
+  cases lb with
+  | none => rfl
+  | some d =>
+    cases d with
+    | fin x => rfl
+    | inf => exact absurd rfl h
+
+theorem performDive_spec (hC : C.candidates.Nodup) : ∀ (fuel nid : Nat) (st sd : St α D),
     performDive asn C (cvrs.filterMap id) (nebTable asn C cvrs) fuel nid st = Res.ok sd →
-    LB.isInf sd.lb = false → nid < st.store.size → StoreOK asn C cvrs winner st.store → FInv st →
-    (st.store.get nid).expandable = true → DiveOut asn C cvrs winner st nid sd := by
+    nid < st.store.size → StoreOK asn C cvrs winner st.store → FInv asn C cvrs winner st →
+    (st.store.get nid).expandable = true →
+    (LB.isInf sd.lb = true → BadLeaf asn C cvrs winner) ∧
+    (LB.isInf sd.lb = false → DiveOut asn C cvrs winner st nid sd) := by
   intro fuel
   induction fuel with
   | zero => intro nid st sd h; simp [performDive] at h
   | succ fuel ih =>
-    intro nid st sd h hinf hnid hok hF hexp
+    intro nid st sd h hnid hok hF hexp
     rw [performDive] at h
     simp only at h
     split at h
@@ -575,9 +638,9 @@ theorem performDive_spec : ∀ (fuel nid : Nat) (st sd : St α D),
           subst this
           exact child_ok asn C cvrs winner st.store s1 hok nid hnid next hnc hnt hexp true hnodeExt
             (by rw [hget_new, hnewn])
-      have hF1 : FInv ({ st with store := s1 } : St α D) :=
+      have hF1 : FInv asn C cvrs winner ({ st with store := s1 } : St α D) :=
         hF.congr rfl (by show st.store.size ≤ s1.size; omega)
-          (fun k hk => ⟨(hsame k (hF.inRange k hk)).2.1, (hsame k (hF.inRange k hk)).2.2⟩) hF.lbFin
+          (fun k hk => ⟨(hsame k (hF.inRange k hk)).2.1, (hsame k (hF.inRange k hk)).2.2⟩) rfl
       have hidlt : st.store.size < s1.size := by omega
       -- `SC` across the `explored.append`
       have hscapp : ∀ π, SC st π → ¬ (next :: (st.store.get nid).tail) <:+ π →
@@ -604,20 +667,31 @@ theorem performDive_spec : ∀ (fuel nid : Nat) (st sd : St α D),
             rw [hget_old w hwsz hwn]; exact hw1
           · show Eff (Store.get s1 w) st.lb π
             rw [hget_old w hwsz hwn]; exact hw2
-      have hm := manageNode_spec asn C cvrs winner ({ st with store := s1 } : St α D) st.store.size hidlt
+      have hancNew : (Store.get s1 st.store.size).expandable = false →
+          ∃ j, (Store.get s1 st.store.size).bestAnc = some j :=
+        fun _ => ⟨_, by rw [hget_new]; exact f4⟩
+      have hleafNew : (Store.get s1 st.store.size).expandable = false →
+          (Store.get s1 st.store.size).tail.length = C.candidates.length := by
+        rw [hget_new, f5, f1]
+        intro hx
+        simp only [Bool.not_eq_false', beq_iff_eq] at hx
+        simpa using hx
+      have hm := manageNode_spec asn C cvrs winner hC ({ st with store := s1 } : St α D) st.store.size hidlt
         hok1 hF1 (by show (Store.get s1 st.store.size).explored = []; rw [hget_new]; exact f6)
-        (fun _ => ⟨_, by show (Store.get s1 st.store.size).bestAnc = _; rw [hget_new]; exact f4⟩)
+        hancNew hleafNew
+      have hbad := manageNode_anp asn C cvrs winner hC ({ st with store := s1 } : St α D) st.store.size hidlt
+        hok1 hancNew hleafNew
       cases hr : manageNode ({ st with store := s1 } : St α D) st.store.size with
       | mk r1 rr =>
         cases rr with
         | mk r2 st2 =>
-          rw [hr] at h hm
-          simp only at h hm
+          rw [hr] at h hm hbad
+          simp only at h hm hbad
           cases r1 with
           | true =>
             simp only [if_true] at h
             cases h
-            simp [LB.isInf, Diff.isInf] at hinf
+            exact ⟨fun _ => hbad rfl, fun hinf => by simp [LB.isInf, Diff.isInf] at hinf⟩
           | false =>
             simp only [Bool.false_eq_true, if_false] at h
             obtain ⟨m1, m2, m3, m4, m5, m6⟩ := hm rfl
@@ -638,6 +712,8 @@ theorem performDive_spec : ∀ (fuel nid : Nat) (st sd : St α D),
             | true =>
               simp only [if_true] at h
               cases h
+              refine ⟨fun hinf => ?_, fun _ => ?_⟩
+              · rw [LB.isInf_false_of_fin m2.lbFin] at hinf; cases hinf
               refine ⟨next, hnc, hnt, by rw [m1']; exact hok1, m2, m3, hsc_all, hsc_thru,
                 by rw [m1']; omega, ?_, ?_⟩
               · intro k hk hne; rw [m1']; exact hget_old k hk hne
@@ -650,8 +726,10 @@ theorem performDive_spec : ∀ (fuel nid : Nat) (st sd : St α D),
                 cases hx : (Store.get s1 st.store.size).expandable with
                 | true => rfl
                 | false => rw [hx] at this; cases this
-              obtain ⟨next', _, _, d1, d2, d3, d4, d5, d6, d7, d8⟩ :=
-                ih st.store.size st2 sd h hinf (by rw [m1']; exact hidlt) (by rw [m1']; exact hok1) m2 hexp_new
+              obtain ⟨ihbad, ihgood⟩ :=
+                ih st.store.size st2 sd h (by rw [m1']; exact hidlt) (by rw [m1']; exact hok1) m2 hexp_new
+              refine ⟨ihbad, fun hinf => ?_⟩
+              obtain ⟨next', _, _, d1, d2, d3, d4, d5, d6, d7, d8⟩ := ihgood hinf
               refine ⟨next, hnc, hnt, d1, d2, LB.le_trans m3 d3, fun π hsc => d4 π (hsc_all π hsc),
                 fun π hthru => d4 π (hsc_thru π hthru), by rw [m1'] at d6; omega, ?_, ?_⟩
               · intro k hk hne
@@ -659,27 +737,29 @@ theorem performDive_spec : ∀ (fuel nid : Nat) (st sd : St α D),
                 exact hget_old k hk hne
               · rw [d7 nid (by rw [m1']; omega) (by omega), m1', hget_nid, hnode']
 
-
 /-! ### the expansion loop -/
 
-theorem expandLoop_spec (te : Nat) : ∀ (cs : List α) (st st' : St α D),
-    expandLoop asn C (cvrs.filterMap id) (nebTable asn C cvrs) te cs st = (false, st') →
-    te < st.store.size → StoreOK asn C cvrs winner st.store → FInv st →
+theorem expandLoop_spec (hC : C.candidates.Nodup) (te : Nat) : ∀ (cs : List α) (st st' : St α D) (b : Bool),
+    expandLoop asn C (cvrs.filterMap id) (nebTable asn C cvrs) te cs st = (b, st') →
+    te < st.store.size → StoreOK asn C cvrs winner st.store → FInv asn C cvrs winner st →
     (∀ c ∈ cs, c ∈ C.candidates) → (st.store.get te).expandable = true →
-    StoreOK asn C cvrs winner st'.store ∧ FInv st' ∧ LB.le st.lb st'.lb ∧
-    (∀ π, SC st π → SC st' π) ∧
-    (∀ c ∈ cs, c ∉ (st.store.get te).tail → c ∉ (st.store.get te).explored →
-      ∀ π, (c :: (st.store.get te).tail) <:+ π → SC st' π) ∧
-    st.store.size ≤ st'.store.size ∧ (∀ k, k < st.store.size → st'.store.get k = st.store.get k) := by
+    (b = true → BadLeaf asn C cvrs winner) ∧
+    (b = false →
+      StoreOK asn C cvrs winner st'.store ∧ FInv asn C cvrs winner st' ∧ LB.le st.lb st'.lb ∧
+      (∀ π, SC st π → SC st' π) ∧
+      (∀ c ∈ cs, c ∉ (st.store.get te).tail → c ∉ (st.store.get te).explored →
+        ∀ π, (c :: (st.store.get te).tail) <:+ π → SC st' π) ∧
+      st.store.size ≤ st'.store.size ∧ (∀ k, k < st.store.size → st'.store.get k = st.store.get k)) := by
   intro cs
   induction cs with
   | nil =>
-    intro st st' h _ hok hF _ _
-    simp only [expandLoop, Prod.mk.injEq, true_and] at h
-    subst h
-    exact ⟨hok, hF, LB.le_refl _, fun _ h => h, by simp, Nat.le_refl _, fun _ _ => rfl⟩
+    intro st st' b h _ hok hF _ _
+    simp only [expandLoop, Prod.mk.injEq] at h
+    obtain ⟨rfl, rfl⟩ := h
+    exact ⟨fun h => (by cases h),
+      fun _ => ⟨hok, hF, LB.le_refl _, fun _ h => h, by simp, Nat.le_refl _, fun _ _ => rfl⟩⟩
   | cons c cs ih =>
-    intro st st' h hte hok hF hcs hexp
+    intro st st' b h hte hok hF hcs hexp
     rw [expandLoop] at h
     simp only at h
     have hcs' : ∀ c' ∈ cs, c' ∈ C.candidates := fun c' hc' => hcs c' (List.mem_cons_of_mem _ hc')
@@ -703,30 +783,47 @@ theorem expandLoop_spec (te : Nat) : ∀ (cs : List α) (st st' : St α D),
           subst this
           exact child_ok asn C cvrs winner st.store _ hok te hte c (hcs c List.mem_cons_self) hct hexp false
             (fun k hk => by rw [hold k hk]; exact NodeExt.refl _) (by rw [hnew, hnewn])
-      have hF1 : FInv ({ st with store := st.store.push newn } : St α D) :=
+      have hF1 : FInv asn C cvrs winner ({ st with store := st.store.push newn } : St α D) :=
         hF.congr rfl (by show st.store.size ≤ (st.store.push newn).size; omega)
           (fun k hk => by
             show (Store.get (st.store.push newn) k).estimate = _ ∧ (Store.get (st.store.push newn) k).expandable = _
-            rw [hold k (hF.inRange k hk)]; exact ⟨rfl, rfl⟩) hF.lbFin
-      have hm := manageNode_spec asn C cvrs winner ({ st with store := st.store.push newn } : St α D)
-        st.store.size (by show st.store.size < (st.store.push newn).size; omega) hok1 hF1
+            rw [hold k (hF.inRange k hk)]; exact ⟨rfl, rfl⟩) rfl
+      have hidlt : st.store.size < (st.store.push newn).size := by omega
+      have hancNew : (Store.get (st.store.push newn) st.store.size).expandable = false →
+          ∃ j, (Store.get (st.store.push newn) st.store.size).bestAnc = some j :=
+        fun _ => ⟨_, by rw [hnew]; exact f4⟩
+      have hleafNew : (Store.get (st.store.push newn) st.store.size).expandable = false →
+          (Store.get (st.store.push newn) st.store.size).tail.length = C.candidates.length := by
+        rw [hnew, f5, f1]
+        intro hx
+        simp only [Bool.not_eq_false', beq_iff_eq] at hx
+        simpa using hx
+      have hm := manageNode_spec asn C cvrs winner hC ({ st with store := st.store.push newn } : St α D)
+        st.store.size hidlt hok1 hF1
         (by show (Store.get (st.store.push newn) st.store.size).explored = []; rw [hnew]; exact f6)
-        (fun _ => ⟨_, by show (Store.get (st.store.push newn) st.store.size).bestAnc = _; rw [hnew]; exact f4⟩)
+        hancNew hleafNew
+      have hbad := manageNode_anp asn C cvrs winner hC ({ st with store := st.store.push newn } : St α D)
+        st.store.size hidlt hok1 hancNew hleafNew
       cases hr : manageNode ({ st with store := st.store.push newn } : St α D) st.store.size with
       | mk r1 rr =>
         cases rr with
         | mk r2 st2 =>
-          rw [hr] at h hm
-          simp only at h hm
+          rw [hr] at h hm hbad
+          simp only at h hm hbad
           cases r1 with
-          | true => simp at h
+          | true =>
+            simp only [if_true, Prod.mk.injEq] at h
+            obtain ⟨rfl, _⟩ := h
+            exact ⟨fun _ => hbad rfl, fun h => (by cases h)⟩
           | false =>
             simp only [Bool.false_eq_true, if_false] at h
             obtain ⟨m1, m2, m3, m4, m5, _⟩ := hm rfl
             have m1' : st2.store = st.store.push newn := m1
             have hte2 : st2.store.get te = st.store.get te := by rw [m1']; exact hold te hte
-            obtain ⟨i1, i2, i3, i4, i5, i6, i7⟩ := ih st2 st' h (by rw [m1', hsz]; omega)
+            obtain ⟨ihbad, ihgood⟩ := ih st2 st' b h (by rw [m1', hsz]; omega)
               (by rw [m1']; exact hok1) m2 hcs' (by rw [hte2]; exact hexp)
+            refine ⟨ihbad, fun hb => ?_⟩
+            obtain ⟨i1, i2, i3, i4, i5, i6, i7⟩ := ihgood hb
             have hsc1 : ∀ π, SC st π → SC st2 π := by
               intro π hsc
               apply m4
@@ -748,7 +845,9 @@ theorem expandLoop_spec (te : Nat) : ∀ (cs : List α) (st st' : St α D),
               rw [i7 k (by rw [m1', hsz]; omega), m1']
               exact hold k hk
     · rename_i hcond
-      obtain ⟨i1, i2, i3, i4, i5, i6, i7⟩ := ih st st' h hte hok hF hcs' hexp
+      obtain ⟨ihbad, ihgood⟩ := ih st st' b h hte hok hF hcs' hexp
+      refine ⟨ihbad, fun hb => ?_⟩
+      obtain ⟨i1, i2, i3, i4, i5, i6, i7⟩ := ihgood hb
       refine ⟨i1, i2, i3, i4, ?_, i6, i7⟩
       intro c' hc' h1 h2 π hπ
       simp only [List.mem_cons] at hc'
@@ -758,22 +857,26 @@ theorem expandLoop_spec (te : Nat) : ∀ (cs : List α) (st st' : St α D),
         simp [h1, h2]
       · exact i5 c' hc' h1 h2 π hπ
 
-
 /-! ### the main loop -/
 
-/-- the loop invariant at the loop head (S1, S2, S3) -/
+/-- the loop invariant at the loop head (S1, S2, S3, O1-O3) -/
 structure Inv (st : St α D) : Prop where
   ok : StoreOK asn C cvrs winner st.store
-  fr : FInv st
+  fr : FInv asn C cvrs winner st
   cover : ∀ π, Alt C.candidates winner π → SC st π
 
-theorem FInv.tail {st : St α D} {te : Nat} {rest : List Nat} (h : FInv st) (hfr : st.fr = te :: rest) :
-    FInv { st with fr := rest } := by
-  refine ⟨fun id hid => h.inRange id (by rw [hfr]; exact List.mem_cons_of_mem _ hid),
-    fun id hid => h.infExp id (by rw [hfr]; exact List.mem_cons_of_mem _ hid), ?_, h.lbFin⟩
-  have := h.infPre
-  rw [hfr] at this
-  exact (List.pairwise_cons.1 this).2
+variable {asn C cvrs winner} in
+theorem FInv.tail {st : St α D} {te : Nat} {rest : List Nat} (h : FInv asn C cvrs winner st)
+    (hfr : st.fr = te :: rest) : FInv asn C cvrs winner { st with fr := rest } := by
+  have hsub : ∀ id ∈ rest, id ∈ st.fr := fun id hid => by rw [hfr]; exact List.mem_cons_of_mem _ hid
+  refine ⟨fun id hid => h.inRange id (hsub id hid), fun id hid => h.infExp id (hsub id hid), ?_,
+    h.lbFin, h.lbOpt, fun id hid => h.nonexpOpt id (hsub id hid), ?_⟩
+  · have := h.infPre
+    rw [hfr] at this
+    exact (List.pairwise_cons.1 this).2
+  · have := h.sorted
+    rw [hfr] at this
+    exact (List.pairwise_cons.1 this).2
 
 /-- a complete order that ends in a strictly shorter tail `t` passes through exactly one child of `t` -/
 theorem alt_through (hC : C.candidates.Nodup) {π t : List α} (hπ : π.Perm C.candidates) (ht : t <:+ π)
@@ -798,7 +901,7 @@ theorem LBfin_maxLB2 {a b : LB D} (ha : LBfin a) (hb : LBfin b) : LBfin (maxLB2 
 covered by the rest of the frontier stays covered, and so does everything `te` still accounted for -/
 theorem inv_of_step (hC : C.candidates.Nodup) {st st2 : St α D} {te : Nat} {rest : List Nat}
     (hI : Inv asn C cvrs winner st) (hfr : st.fr = te :: rest)
-    (hok2 : StoreOK asn C cvrs winner st2.store) (hF2 : FInv st2)
+    (hok2 : StoreOK asn C cvrs winner st2.store) (hF2 : FInv asn C cvrs winner st2)
     (h1 : ∀ π, SC { st with fr := rest } π → SC st2 π)
     (h2 : ∀ π, Alt C.candidates winner π → (st.store.get te).tail <:+ π → Eff (st.store.get te) st.lb π →
       SC st2 π) : Inv asn C cvrs winner st2 := by
@@ -811,15 +914,24 @@ theorem inv_of_step (hC : C.candidates.Nodup) {st st2 : St α D} {te : Nat} {res
   · exact h2 π hπ hw1 hw2
   · exact h1 π ⟨w, hw, hw1, hw2⟩
 
-theorem mainLoop_spec (hC : C.candidates.Nodup) : ∀ (fuel : Nat) (st st' : St α D),
-    mainLoop asn C (cvrs.filterMap id) (nebTable asn C cvrs) fuel st = Res.ok (some st') →
-    Inv asn C cvrs winner st →
-    Inv asn C cvrs winner st' ∧ ∃ te rest, st'.fr = te :: rest ∧ (st'.store.get te).expandable = false := by
+/-- the exit state of the main loop: invariant plus a non-expandable head -/
+def ExitState (st : St α D) : Prop :=
+  Inv asn C cvrs winner st ∧ ∃ te rest, st.fr = te :: rest ∧ (st.store.get te).expandable = false
+
+/-- what the main loop returns: an exit state, or "audit not possible" with a witness order -/
+def LoopOut (r : Option (St α D)) : Prop :=
+  match r with
+  | some st' => ExitState asn C cvrs winner st'
+  | none => BadLeaf asn C cvrs winner
+
+theorem mainLoop_spec (hC : C.candidates.Nodup) : ∀ (fuel : Nat) (st : St α D) (r : Option (St α D)),
+    mainLoop asn C (cvrs.filterMap id) (nebTable asn C cvrs) fuel st = Res.ok r →
+    Inv asn C cvrs winner st → LoopOut asn C cvrs winner r := by
   intro fuel
   induction fuel with
-  | zero => intro st st' h; simp [mainLoop] at h
+  | zero => intro st r h; simp [mainLoop] at h
   | succ fuel ih =>
-    intro st st' h hI
+    intro st r h hI
     rw [mainLoop] at h
     split at h
     · cases h
@@ -833,12 +945,12 @@ theorem mainLoop_spec (hC : C.candidates.Nodup) : ∀ (fuel : Nat) (st st' : St 
       · rename_i hne
         have hexp : (st.store.get te).expandable = true := by simpa using hne
         have hte : te < st.store.size := hI.fr.inRange te (by rw [hfr]; exact List.mem_cons_self)
-        have hF0 : FInv ({ st with fr := rest } : St α D) := hI.fr.tail hfr
+        have hF0 : FInv asn C cvrs winner ({ st with fr := rest } : St α D) := hI.fr.tail hfr
         have hteOK := hI.ok te hte
         have hlen := hteOK.expLen hexp
         -- the expansion step, shared by the two places where it occurs
         have expandCase : ∀ (st1 : St α D), te < st1.store.size → StoreOK asn C cvrs winner st1.store →
-            FInv st1 → (st1.store.get te).tail = (st.store.get te).tail →
+            FInv asn C cvrs winner st1 → (st1.store.get te).tail = (st.store.get te).tail →
             (st1.store.get te).expandable = true →
             (∀ π, SC { st with fr := rest } π → SC st1 π) →
             (∀ π, Alt C.candidates winner π → (st.store.get te).tail <:+ π →
@@ -849,20 +961,23 @@ theorem mainLoop_spec (hC : C.candidates.Nodup) : ∀ (fuel : Nat) (st st' : St 
               then Res.ok none
               else mainLoop asn C (cvrs.filterMap id) (nebTable asn C cvrs) fuel
                 (expandLoop asn C (cvrs.filterMap id) (nebTable asn C cvrs) te C.candidates st1).2)
-              = Res.ok (some st') →
-            Inv asn C cvrs winner st' ∧
-              ∃ te rest, st'.fr = te :: rest ∧ (st'.store.get te).expandable = false := by
+              = Res.ok r →
+            LoopOut asn C cvrs winner r := by
           intro st1 hte1 hok1 hF1 htail1 hexp1 hsc1 hexpl hnle hrun
           cases hr : expandLoop asn C (cvrs.filterMap id) (nebTable asn C cvrs) te C.candidates st1 with
           | mk r1 st2 =>
             rw [hr] at hrun
+            obtain ⟨ebad, egood⟩ := expandLoop_spec asn C cvrs winner hC te C.candidates st1 st2 r1 hr
+              hte1 hok1 hF1 (fun c hc => hc) hexp1
             cases r1 with
-            | true => simp at hrun
+            | true =>
+              simp only [if_true, Res.ok.injEq] at hrun
+              subst hrun
+              exact ebad rfl
             | false =>
               simp only [Bool.false_eq_true, if_false] at hrun
-              obtain ⟨e1, e2, e3, e4, e5, e6, e7⟩ := expandLoop_spec asn C cvrs winner te C.candidates st1 st2 hr
-                hte1 hok1 hF1 (fun c hc => hc) hexp1
-              apply ih st2 st' hrun
+              obtain ⟨e1, e2, e3, e4, e5, e6, e7⟩ := egood rfl
+              apply ih st2 r hrun
               apply inv_of_step asn C cvrs winner hC hI hfr e1 e2 (fun π hsc => e4 π (hsc1 π hsc))
               intro π hπ hthru heff
               rcases heff with heff | heff
@@ -877,7 +992,7 @@ theorem mainLoop_spec (hC : C.candidates.Nodup) : ∀ (fuel : Nat) (st st' : St 
           rw [hp] at h
           simp only at h
           obtain ⟨p1, p2, p3, p4, p5⟩ := pruneChecks_spec asn C cvrs winner ({ st with fr := rest } : St α D) stp te hte hI.ok hF0 hp
-          apply ih stp st' h
+          apply ih stp r h
           exact inv_of_step asn C cvrs winner hC hI hfr p1 p2 p4 (fun π _ hthru _ => p5 π hthru)
         | none =>
           rw [hp] at h
@@ -890,12 +1005,15 @@ theorem mainLoop_spec (hC : C.candidates.Nodup) : ∀ (fuel : Nat) (st st' : St 
             · cases h
             · cases h
             · rename_i sd hdive
+              obtain ⟨dbad, dgood⟩ := performDive_spec asn C cvrs winner hC _ te ({ st with fr := rest } : St α D)
+                sd hdive hte hI.ok hF0 hexp
               split at h
-              · cases h
+              · rename_i hinf
+                cases h
+                exact dbad hinf
               · rename_i hinf
                 have hinf' : LB.isInf sd.lb = false := by simpa using hinf
-                obtain ⟨next, hnc, hnt, d1, d2, d3, d4, d5, d6, d7, d8⟩ :=
-                  performDive_spec asn C cvrs winner _ te ({ st with fr := rest } : St α D) sd hdive hinf' hte hI.ok hF0 hexp
+                obtain ⟨next, hnc, hnt, d1, d2, d3, d4, d5, d6, d7, d8⟩ := dgood hinf'
                 have hsdte_tail : (sd.store.get te).tail = (st.store.get te).tail := by
                   have : sd.store.get te = _ := d8
                   rw [this]
@@ -905,11 +1023,12 @@ theorem mainLoop_spec (hC : C.candidates.Nodup) : ∀ (fuel : Nat) (st st' : St 
                 have hsdte_expl : (sd.store.get te).explored = (st.store.get te).explored ++ [next] := by
                   have : sd.store.get te = _ := d8
                   rw [this]
-                have hsdte_anc : (sd.store.get te).bestAnc = (st.store.get te).bestAnc := by
-                  have : sd.store.get te = _ := d8
-                  rw [this]
-                have hF1 : FInv ({ sd with lb := maxLB2 st.lb sd.lb } : St α D) :=
-                  d2.setLb _ (LBfin_maxLB2 hI.fr.lbFin d2.lbFin)
+                have hF1 : FInv asn C cvrs winner ({ sd with lb := maxLB2 st.lb sd.lb } : St α D) := by
+                  refine d2.setLb _ (le_maxLB2_right _ _) (LBfin_maxLB2 hI.fr.lbFin d2.lbFin) ?_
+                  intro x hx
+                  rcases maxLB2_cases st.lb sd.lb with h' | h'
+                  · rw [h'] at hx; exact d2.lbOpt x hx
+                  · rw [h'] at hx; exact hI.fr.lbOpt x hx
                 have hsc1 : ∀ π, SC { st with fr := rest } π → SC ({ sd with lb := maxLB2 st.lb sd.lb } : St α D) π := by
                   intro π hsc
                   exact (d4 π hsc).mono (fun x hx => ⟨hx, rfl, rfl, rfl⟩) (le_maxLB2_right _ _)
@@ -919,7 +1038,7 @@ theorem mainLoop_spec (hC : C.candidates.Nodup) : ∀ (fuel : Nat) (st st' : St 
                   rw [hp2] at h
                   simp only at h
                   obtain ⟨p1, p2, p3, p4, p5⟩ := pruneChecks_spec asn C cvrs winner ({ sd with lb := maxLB2 st.lb sd.lb } : St α D) stp te hte1 d1 hF1 hp2
-                  apply ih stp st' h
+                  apply ih stp r h
                   refine inv_of_step asn C cvrs winner hC hI hfr p1 p2 (fun π hsc => p4 π (hsc1 π hsc)) ?_
                   intro π _ hthru _
                   apply p5
@@ -941,7 +1060,6 @@ theorem mainLoop_spec (hC : C.candidates.Nodup) : ∀ (fuel : Nat) (st st' : St 
             refine expandCase ({ st with fr := rest } : St α D) hte hI.ok hF0 rfl hexp (fun π hsc => hsc) ?_ hnle h
             intro π hπ hthru heff c hc1 hce
             exact absurd hc1 (heff c hce)
-
 
 end Loop
 end Shangrla.Raire
